@@ -20,7 +20,11 @@ WANT_PROBES = ["idle_call", "complete_reported", "suspensions_decided", "request
 
 
 def make(family, rng, tier):
-    return restsim.gen_scn(rng, tier)
+    scn = restsim.gen_storm(rng, tier) if family == "storm" else restsim.gen_scn(rng, tier)
+    # the executor-side snapshot rules of neighbouring properties ride along: the bridge's own oracles get to see what
+    # the external scheduler is told next
+    scn["defer"] = ["C01.", "C02.", "C09.identity"]
+    return scn
 
 
 def execute(scn, rng):
@@ -28,7 +32,7 @@ def execute(scn, rng):
 
 
 def plan(tier):
-    return [("rest", 5000 if tier == "quick" else 120000)]
+    return [("rest", 5000 if tier == "quick" else 120000), ("storm", 3 if tier == "quick" else 40)]
 
 
 def sample(scn, out):
